@@ -13,6 +13,7 @@ Models: Emboss/Model/Names.lean, StaticAsserts.lean, CppInt.lean (+ Enum.lean fo
 import Emboss.Lemmas.StaticAsserts
 import Emboss.Lemmas.EnumGen
 import Emboss.Lemmas.Names
+import Emboss.Lemmas.NamesAccept
 import Emboss.Lemmas.NamesScan
 import Emboss.Model.Names
 import Emboss.Model.EnableIfs
@@ -295,7 +296,15 @@ theorem C07_names_counterexample :
     clean (namespaceScope { structs := [s "Bar"], enums := [s "BarView"] }) = false ∧
     clean (namespaceScope { enums := [s "EnumTraits"] }) = false ∧
     clean (namespaceScope { enums := [s "MaxSizeInBytes"], owner := some { name := s "Foo", fields := [fConst "$max_size_in_bytes"] } }) = false ∧
-    clean (referenceScope { name := s "Storage", fields := [fConst "$max_size_in_bytes"] }) = false := by
+    clean (typeRefScope { name := s "Storage", fields := [fConst "$max_size_in_bytes"] }) = false ∧
+    clean (nestedRefScope { name := s "ValueType", fields := [fConst "$max_size_in_bytes"] }) = false ∧
+    -- 11. an enum nested in a structure and named like the structure
+    clean (typeRefScope { name := s "Foo", nestedEnums := [s "Foo"] }) = false ∧
+    -- 12. two modules of one C++ namespace that both declare `Foo`
+    clean (namespaceScope { structs := [s "Foo", s "Foo"] }) = false ∧
+    -- not a clash: a nested enum `ValueType`, a structure named like a member function
+    clean (typeRefScope { name := s "Foo", nestedEnums := [s "ValueType"] }) = true ∧
+    clean (nestedRefScope { name := s "IntrinsicSizeInBytes" }) = true := by
   decide
 
 /-- **The clash scopes, proved** (not only evaluated on witnesses): `clean` decides exactly the
@@ -434,7 +443,7 @@ theorem C07_clash_scopes_namespace :
     have hEnum := enumDecl_mem sc e he { ident := e, what := "enum" } (by simp [enumDecls])
     have hF : ({ ident := e, what := "constant function" } : Decl) ∈ namespaceScope sc := by
       unfold namespaceScope
-      refine List.mem_append_right _ ?_
+      refine List.mem_append_left _ (List.mem_append_right _ ?_)
       rw [ho]
       refine List.mem_flatMap.mpr ⟨f, hf, ?_⟩
       simp [hc, hcpp]
@@ -442,6 +451,27 @@ theorem C07_clash_scopes_namespace :
     intro h
     have := congrArg Decl.what h
     simp at this
+
+/-- **The reference and cross-module clash classes, for every structure / scope of the shape**
+(round 3; before, `parameter-named-like-view-data-member` and `structure-named-Storage-or-ValueType`
+were witnesses only): a parameter `<p>` whose data member `<p>_` is a member every view class has
+(`backing`, `parameters_initialized`); a structure named `Storage` (template parameter of its view
+class) or `ValueType` (alias in the nested view class of every virtual field), whose own
+`<Struct>::…` references then resolve to those; an enum nested in a structure of the same name
+(`nested-enum-named-like-its-structure`); a structure and an enum of one name in one C++ namespace
+(only possible across modules: `type-declared-twice-in-one-cpp-namespace`). -/
+theorem C07_clash_scopes_references :
+    (∀ (st : Struct) (p : Name), p ∈ st.params → p ++ s "_" ∈ fixedMembers st → clean (classScope st) = false) ∧
+    (∀ st : Struct, st.name = s "Storage" → clean (typeRefScope st) = false) ∧
+    (∀ st : Struct, st.name = s "ValueType" → clean (nestedRefScope st) = false) ∧
+    (∀ st : Struct, st.name ∈ st.nestedEnums → clean (typeRefScope st) = false) ∧
+    (∀ (sc : Scope) (n : Name), n ∈ sc.structs → n ∈ sc.enums → clean (namespaceScope sc) = false) :=
+  ⟨param_named_like_member, struct_named_storage, struct_named_valuetype, nested_enum_named_like_struct,
+   struct_and_enum_of_one_name⟩
+
+example : s "backing" ++ s "_" ∈ fixedMembers { name := s "Foo", params := [s "backing"] } ∧
+    s "parameters_initialized" ++ s "_" ∈ fixedMembers { name := s "Foo", params := [s "parameters_initialized"] } := by
+  decide
 
 example : s "BarView" = s "Bar" ++ s "View" ∧ cppFieldName (s "$max_size_in_bytes") = some (s "MaxSizeInBytes") := by decide
 
